@@ -974,28 +974,57 @@ Lemma norm_go_map l :
   (fix go (l : list rty) : list (res rty) := match l with [] => [] | x :: t => norm_gen x :: go t end) l = map norm_gen l.
 Proof. induction l as [|x l IH]; [reflexivity|]. now rewrite IH. Qed.
 
+(* utils.is_list / is_tuple / is_dict over utils._mro, as regenerated *)
+Lemma is_list_gen_gen al o l : is_list_gen (RGen al o l) = origin_eqb o OList.
+Proof. destruct al, o; reflexivity. Qed.
+Lemma is_tuple_gen_gen al o l : is_tuple_gen (RGen al o l) = origin_eqb o OTuple.
+Proof. destruct al, o; reflexivity. Qed.
+Lemma is_dict_gen_gen al o l : is_dict_gen (RGen al o l) = origin_eqb o ODict.
+Proof. destruct al, o; reflexivity. Qed.
+
+Lemma is_list_gen_cls n : String.eqb n "list" = false -> is_list_gen (RCls n) = false.
+Proof.
+  intros H. unfold is_list_gen, in_mro, MRO_CHAIN_GEN, IS_LIST_NAMES_GEN. cbn [mro_m mtest_holds mans_val mro_names existsb].
+  destruct (str_in n BUILTIN_CLASS_NAMES); cbn [str_in existsb]; [|reflexivity]. rewrite (String.eqb_sym "list" n), H. reflexivity.
+Qed.
+Lemma is_tuple_gen_cls n : String.eqb n "tuple" = false -> is_tuple_gen (RCls n) = false.
+Proof.
+  intros H. unfold is_tuple_gen, in_mro, MRO_CHAIN_GEN, IS_TUPLE_NAMES_GEN. cbn [mro_m mtest_holds mans_val mro_names existsb].
+  destruct (str_in n BUILTIN_CLASS_NAMES); cbn [str_in existsb]; [|reflexivity]. rewrite (String.eqb_sym "tuple" n), H. reflexivity.
+Qed.
+Lemma is_dict_gen_cls n : String.eqb n "dict" = false -> is_dict_gen (RCls n) = false.
+Proof.
+  intros H. unfold is_dict_gen, in_mro, MRO_CHAIN_GEN, IS_DICT_NAMES_GEN. cbn [mro_m mtest_holds mans_val mro_names existsb].
+  destruct (str_in n BUILTIN_CLASS_NAMES) eqn:Eb; cbn [str_in existsb]; [|reflexivity].
+  rewrite (String.eqb_sym "dict" n), H.
+  destruct (String.eqb "Mapping" n) eqn:E; [|reflexivity].
+  apply String.eqb_eq in E. subst n. discriminate Eb.
+Qed.
+
 Lemma norm_cls n :
   String.eqb n "list" = false -> String.eqb n "tuple" = false -> String.eqb n "dict" = false ->
   norm_gen (RCls n) = Ok (RCls n).
 Proof.
   intros H1 H2 H3. unfold norm_gen. cbn [norm]. unfold NORM_TABLE_GEN, NORM_ELSE_GEN. cbn [pick ntest_holds].
-  rewrite H1, H2, H3. destruct (str_in n BUILTIN_CLASS_NAMES); reflexivity.
+  rewrite (is_list_gen_cls n H1), (is_tuple_gen_cls n H2), (is_dict_gen_cls n H3).
+  destruct (str_in n BUILTIN_CLASS_NAMES); reflexivity.
 Qed.
 
 Lemma norm_list al a : norm_gen (RGen al OList [a]) = bind (norm_gen a) (fun a' => Ok (RGen false OList [a'])).
-Proof. reflexivity. Qed.
+Proof. destruct al; reflexivity. Qed.
 
 Lemma norm_tuple al l :
   norm_gen (RGen al OTuple l) = bind (mapM norm_gen l) (fun l' => Ok (RGen false OTuple l')).
 Proof.
   unfold norm_gen at 1. cbn [norm]. fold norm_gen. rewrite norm_go_map.
-  unfold NORM_TABLE_GEN, NORM_ELSE_GEN. cbn [pick ntest_holds run_act]. now rewrite seq_res_map.
+  unfold NORM_TABLE_GEN, NORM_ELSE_GEN. cbn [pick ntest_holds]. rewrite is_list_gen_gen, is_tuple_gen_gen.
+  cbn [origin_eqb run_act]. now rewrite seq_res_map.
 Qed.
 
 Lemma norm_dict al k v :
   norm_gen (RGen al ODict [k; v]) =
   bind (norm_gen k) (fun k' => bind (norm_gen v) (fun v' => Ok (RGen false ODict [k'; v']))).
-Proof. reflexivity. Qed.
+Proof. destruct al; reflexivity. Qed.
 
 Lemma norm_utype l : norm_gen (RUType l) = bind (mapM norm_gen l) mk_tunion.
 Proof.
@@ -1483,17 +1512,28 @@ Proof. reflexivity. Qed.
 Lemma rt_utype sp c l : rt sp c = RUType l -> sp = Sp604 /\ is_cunion c = true.
 Proof. destruct c; try discriminate; destruct sp; try discriminate. intros _. split; reflexivity. Qed.
 
+Lemma bind_ok_id {A} (x : res A) : bind x (fun r => Ok r) = x.
+Proof. destruct x; reflexivity. Qed.
+
+(* the steps of get_field_type_from_annotations (regenerated), run on an evaluated hint *)
+Lemma run_steps_gen initvar r :
+  run_steps is_list_gen is_tuple_gen is_dict_gen NORM_TABLE_GEN NORM_ELSE_GEN initvar RESOLVE_STEPS_GEN r =
+  match r with RUType _ => if initvar then Ok r else norm_gen r | _ => Ok r end.
+Proof.
+  unfold RESOLVE_STEPS_GEN. cbn [run_steps apply_step bind]. fold norm_gen. rewrite bind_ok_id. reflexivity.
+Qed.
+
 Theorem resolve_render sp postponed initvar c :
   wf_cty c = true -> exists r, resolve_gen postponed initvar (render sp c) = Ok r /\ canon r = c.
 Proof.
   intros Hw. unfold resolve_gen, resolve. destruct postponed.
-  - rewrite (eval_render FORWARD_REFS_GEN sp c forward_refs_ok Hw). cbn [bind]. cbv zeta.
-    rewrite (rt_none_iff sp c Hw).
+  - rewrite (eval_render FORWARD_REFS_GEN sp c forward_refs_ok Hw). cbn [bind].
+    rewrite run_steps_gen, (rt_none_iff sp c Hw).
     destruct (rt sp c) as [n| | |al o args|args|args] eqn:E;
       try (eexists; split; [reflexivity|rewrite <- E; now apply canon_rt]).
     destruct (rt_utype sp c args E) as [-> Hu].
     destruct initvar; [eexists; split; [reflexivity|rewrite <- E; now apply canon_rt]|].
-    rewrite <- E. fold norm_gen. rewrite (norm_rt604 c Hw). eexists. split; [reflexivity|now apply canon_rt].
+    rewrite <- E. rewrite (norm_rt604 c Hw). eexists. split; [reflexivity|now apply canon_rt].
   - rewrite (eval_render [] sp c eq_refl Hw). eexists. split; [reflexivity|now apply canon_rt].
 Qed.
 
@@ -1810,37 +1850,176 @@ Lemma wrapper_fields_spec l :
   map (fun kv => (fst kv, f_ty (snd kv))) (wrapper_fields_gen l) = spec_cli_fields l.
 Proof.
   unfold spec_cli_fields, wrapper_fields_gen, wrapper_fields. f_equal. apply filter_ext.
-  intros [n [ty k i c]]. destruct k; reflexivity.
+  intros [n [ty k i c d]]. destruct k; reflexivity.
 Qed.
 
 Definition decl_wf (kv : string * fdecl) : bool := wf_cty (f_ty (snd kv)).
+
+Lemma mapM_ok {A B} (f : A -> res B) (g : A -> B) l :
+  (forall x, In x l -> f x = Ok (g x)) -> mapM f l = Ok (map g l).
+Proof.
+  intros H. rewrite <- (map_id l) at 1. now apply (mapM_map_ok f (fun x => x) g).
+Qed.
+
+(* FieldWrapper.type unwraps InitVar[...] (regenerated fact) *)
+Lemma initvar_unwrapped : INITVAR_UNWRAPPED_GEN = true.
+Proof. reflexivity. Qed.
 
 Lemma field_types_ok sp postponed l :
   forallb decl_wf l = true -> field_types_gen sp postponed l = Ok (spec_cli_fields l).
 Proof.
   intros H. unfold field_types_gen, field_types. fold resolve_gen. fold wrapper_fields_gen.
-  rewrite <- wrapper_fields_spec.
-  assert (Hsub : forall kv, In kv (wrapper_fields_gen l) -> decl_wf kv = true).
-  { intros kv Hin. unfold wrapper_fields_gen, wrapper_fields in Hin. apply filter_In in Hin as [Hin _].
+  rewrite <- wrapper_fields_spec. apply mapM_ok. intros kv Hin.
+  assert (Hw : decl_wf kv = true).
+  { unfold wrapper_fields_gen, wrapper_fields in Hin. apply filter_In in Hin as [Hin _].
     rewrite forallb_forall in H. now apply H. }
-  induction (wrapper_fields_gen l) as [|kv w IH]; [reflexivity|].
-  cbn [mapM map]. change ((fix go (l0 : list (string * fdecl)) : res (list (string * cty)) :=
-    match l0 with
-    | [] => Ok []
-    | x :: r => bind (bind (resolve_gen postponed (fkind_eqb (f_kind (snd x)) KInitVar) (render sp (f_ty (snd x))))
-                           (fun o => Ok (fst x, canon o)))
-                     (fun y => bind (go r) (fun ys => Ok (y :: ys)))
-    end) w) with (mapM (fun kv0 => bind (resolve_gen postponed (fkind_eqb (f_kind (snd kv0)) KInitVar) (render sp (f_ty (snd kv0))))
-                                        (fun o => Ok (fst kv0, canon o))) w).
-  pose proof (Hsub kv (or_introl eq_refl)) as Hw. unfold decl_wf in Hw.
-  destruct (resolve_render sp postponed (fkind_eqb (f_kind (snd kv)) KInitVar) _ Hw) as [r [Hr Hc]]. rewrite Hr. cbn [bind]. rewrite Hc.
-  rewrite IH by (intros x Hx; apply Hsub; now right). reflexivity.
+  unfold decl_wf in Hw. cbv zeta.
+  destruct (resolve_render sp postponed (fkind_eqb (f_kind (snd kv)) KInitVar) _ Hw) as [r [Hr Hc]].
+  rewrite Hr. cbn [bind]. rewrite initvar_unwrapped, Hc. cbn [negb]. now rewrite andb_false_r.
 Qed.
 
 Theorem chain_types_ok sp postponed chain :
   forallb decl_wf (chain_fields chain) = true ->
   field_types_gen sp postponed (chain_fields chain) = Ok (spec_cli_fields (spec_flat chain)).
 Proof. intros H. rewrite (field_types_ok sp postponed _ H). now rewrite flat_meets_spec. Qed.
+
+(* ====================================================================================================== *)
+(* E. the type predicates and the nested-group decision see the same thing in every spelling               *)
+(* ====================================================================================================== *)
+Theorem resolve_render_rt sp postponed initvar c :
+  wf_cty c = true -> exists sp', resolve_gen postponed initvar (render sp c) = Ok (rt sp' c).
+Proof.
+  intros Hw. unfold resolve_gen, resolve. destruct postponed.
+  - rewrite (eval_render FORWARD_REFS_GEN sp c forward_refs_ok Hw). cbn [bind].
+    rewrite run_steps_gen, (rt_none_iff sp c Hw).
+    destruct (rt sp c) as [n| | |al o args|args|args] eqn:E; try (exists sp; now rewrite E).
+    destruct (rt_utype sp c args E) as [-> Hu].
+    destruct initvar; [exists Sp604; now rewrite E|].
+    rewrite <- E. rewrite (norm_rt604 c Hw). now exists SpBuiltin.
+  - rewrite (eval_render [] sp c eq_refl Hw). now exists sp.
+Qed.
+
+Lemma is_list_rt sp c : wf_cty c = true -> is_list_gen (rt sp c) = is_clist c.
+Proof.
+  destruct c as [n| | |a|l|a|k v|l|]; try discriminate; intros Hw; cbn [rt]; rewrite ?is_list_gen_gen; try reflexivity.
+  - cbn [wf_cty] in Hw. now apply is_list_gen_cls, (wf_name_not_reserved n).
+  - destruct sp; reflexivity.
+Qed.
+
+Lemma is_tuple_rt sp c : wf_cty c = true -> is_tuple_gen (rt sp c) = is_ctuple c.
+Proof.
+  destruct c as [n| | |a|l|a|k v|l|]; try discriminate; intros Hw; cbn [rt]; rewrite ?is_tuple_gen_gen; try reflexivity.
+  - cbn [wf_cty] in Hw. now apply is_tuple_gen_cls, (wf_name_not_reserved n).
+  - destruct sp; reflexivity.
+Qed.
+
+Lemma is_dict_rt sp c : wf_cty c = true -> is_dict_gen (rt sp c) = is_cdict c.
+Proof.
+  destruct c as [n| | |a|l|a|k v|l|]; try discriminate; intros Hw; cbn [rt]; rewrite ?is_dict_gen_gen; try reflexivity.
+  - cbn [wf_cty] in Hw. now apply is_dict_gen_cls, (wf_name_not_reserved n).
+  - destruct sp; reflexivity.
+Qed.
+
+Lemma is_union_rt sp c : is_union_gen (rt sp c) = is_cunion c.
+Proof. destruct c, sp; reflexivity. Qed.
+
+Lemma args_rt_union sp l : get_args_m (rt sp (CUnion l)) = map (mrt sp) l.
+Proof. destruct sp; reflexivity. Qed.
+
+Lemma nonetype_mrt sp c : member_ok c = true -> rty_eqb (RCls "NoneType") (mrt sp c) = is_cnone c.
+Proof.
+  unfold member_ok, mrt. intros H. apply orb_true_iff in H as [H|H].
+  - destruct c; try discriminate. reflexivity.
+  - apply andb_true_iff in H as [_ Hw]. destruct c as [n| | |a|l|a|k v|l|]; try discriminate Hw; try reflexivity.
+    + cbn [wf_cty] in Hw. cbn [rt none_to_cls rty_eqb is_cnone]. rewrite String.eqb_sym.
+      now apply (wf_name_not_reserved n "NoneType").
+    + destruct sp; reflexivity.
+Qed.
+
+Lemma is_optional_rt sp c : wf_cty c = true -> is_optional_gen (rt sp c) = is_coptional c.
+Proof.
+  intros Hw. unfold is_optional_gen. rewrite is_union_rt. destruct c as [n| | |a|l|a|k v|l|]; try discriminate Hw; try reflexivity.
+  destruct (wf_union_parts l Hw) as [_ [_ [_ Hm]]]. rewrite args_rt_union. cbn [IS_OPTIONAL_UNION_ARM_GEN is_cunion andb is_coptional].
+  unfold rty_in. clear Hw. induction l as [|x l IH]; [reflexivity|].
+  cbn [forallb] in Hm. apply andb_true_iff in Hm as [Hx Hl]. cbn [map existsb].
+  now rewrite (nonetype_mrt sp x Hx), (IH Hl).
+Qed.
+
+Section WrapProofs.
+  Variable dcs : list string.
+  Hypothesis Hnone : str_in "NoneType" dcs = false.   (* no dataclass is called NoneType *)
+
+  Lemma is_dc_rt sp c : wf_cty c = true -> is_dc dcs (rt sp c) = is_dc_c dcs c.
+  Proof. destruct c; try discriminate; intros _; try reflexivity; destruct sp; reflexivity. Qed.
+
+  Lemma is_dc_mrt sp c : member_ok c = true -> is_dc dcs (mrt sp c) = is_dc_c dcs c.
+  Proof.
+    unfold member_ok, mrt. intros H. apply orb_true_iff in H as [H|H].
+    - destruct c; try discriminate. exact Hnone.
+    - apply andb_true_iff in H as [_ Hw]. rewrite rt_none_iff by exact Hw. now apply is_dc_rt.
+  Qed.
+
+  Lemma seq_of_dc_rt sp c :
+    wf_cty c = true -> seq_of_dc is_list_gen is_tuple_gen dcs (rt sp c) = seq_of_dc_c dcs c.
+  Proof.
+    intros Hw. unfold seq_of_dc. rewrite is_list_rt, is_tuple_rt by exact Hw.
+    destruct c as [n| | |a|l|a|k v|l|]; try discriminate Hw; try reflexivity.
+    - cbn [wf_cty] in Hw. cbn [is_clist is_ctuple orb andb rt item_is_dc seq_of_dc_c]. now apply is_dc_rt.
+    - cbn [wf_cty] in Hw. apply andb_true_iff in Hw as [Hne Hl]. destruct l as [|a0 l]; [discriminate|].
+      cbn [forallb] in Hl. apply andb_true_iff in Hl as [Ha _].
+      cbn [is_clist is_ctuple orb andb rt map item_is_dc seq_of_dc_c]. now apply is_dc_rt.
+    - cbn [wf_cty] in Hw. cbn [is_clist is_ctuple orb andb rt item_is_dc seq_of_dc_c]. now apply is_dc_rt.
+  Qed.
+
+  Lemma contains_eq r :
+    contains_dc_gen dcs r =
+    is_dc dcs r || seq_of_dc is_list_gen is_tuple_gen dcs r
+    || (is_union_gen r && existsb (contains_dc_gen dcs) (get_args_m r)).
+  Proof.
+    unfold contains_dc_gen, CONTAINS_CHAIN_GEN, CONTAINS_ELSE_GEN.
+    destruct r; cbn [contains_dc cpick ctest_holds];
+      destruct (is_dc dcs _); cbn [orb]; try reflexivity;
+      destruct (seq_of_dc is_list_gen is_tuple_gen dcs _); cbn [orb]; try reflexivity.
+  Qed.
+
+  Lemma contains_rt sp c : wf_cty c = true -> contains_dc_gen dcs (rt sp c) = contains_dc_c dcs c.
+  Proof.
+    induction c as [n| | |a IH|l IH|a IH|k v IHk IHv|l IH|] using cty_ind2; intros Hw; try discriminate;
+      rewrite contains_eq, is_dc_rt, seq_of_dc_rt, is_union_rt by exact Hw; cbn [is_cunion andb contains_dc_c];
+      try (now rewrite orb_false_r).
+    destruct (wf_union_parts l Hw) as [_ [_ [_ Hm]]]. rewrite args_rt_union. f_equal.
+    clear Hw. induction l as [|x l IHl]; [reflexivity|].
+    inversion IH as [|? ? Hx Hl]; subst. cbn [forallb] in Hm. apply andb_true_iff in Hm as [Hmx Hml].
+    cbn [map existsb]. rewrite (IHl Hl Hml). f_equal.
+    unfold member_ok in Hmx. apply orb_true_iff in Hmx as [Hn|Hwx].
+    - destruct x; try discriminate. unfold mrt. cbn [rt none_to_cls]. rewrite contains_eq. cbn [is_dc]. rewrite Hnone. reflexivity.
+    - apply andb_true_iff in Hwx as [_ Hwx]. unfold mrt. rewrite rt_none_iff by exact Hwx. now apply Hx.
+  Qed.
+
+  Lemma is_subparser_rt sp c : wf_cty c = true -> is_subparser IS_UNION_KINDS_GEN dcs (rt sp c) = is_subparser_c dcs c.
+  Proof.
+    intros Hw. unfold is_subparser. fold is_union_gen. rewrite is_union_rt.
+    destruct c as [n| | |a|l|a|k v|l|]; try discriminate Hw; try reflexivity.
+    destruct (wf_union_parts l Hw) as [_ [_ [_ Hm]]]. rewrite args_rt_union. cbn [is_cunion andb is_subparser_c].
+    clear Hw. induction l as [|x l IH]; [reflexivity|].
+    cbn [forallb] in Hm. apply andb_true_iff in Hm as [Hx Hl]. cbn [map forallb].
+    now rewrite (is_dc_mrt sp x Hx), (IH Hl).
+  Qed.
+
+  (* DataclassWrapper's choice between an option, a nested group and an optional nested group *)
+  Theorem wrapper_kind_rt sp c dn :
+    wf_cty c = true ->
+    wrapper_kind_gen dcs (rt sp c) dn =
+    match spec_wkind dcs c dn with Some k => Ok k | None => Err (Raise "NotImplementedError") end.
+  Proof.
+    intros Hw. unfold wrapper_kind_gen, wrapper_kind, spec_wkind, WRAP_GUARD_SEQ_RAISES_GEN, WRAP_CHAIN_GEN, WRAP_ELSE_GEN.
+    rewrite seq_of_dc_rt by exact Hw. cbn [andb]. destruct (seq_of_dc_c dcs c); [reflexivity|].
+    cbn [dpick dtest_holds]. fold (contains_dc_gen dcs).
+    rewrite is_subparser_rt, is_dc_rt, contains_rt by exact Hw.
+    destruct (is_subparser_c dcs c); [reflexivity|]. destruct (is_dc_c dcs c && negb dn); [reflexivity|].
+    destruct (contains_dc_c dcs c); reflexivity.
+  Qed.
+End WrapProofs.
 
 (* ====================================================================================================== *)
 (* B'. the parser reads printed annotations back (so "parse (old_style (print t))" can be stated)           *)
